@@ -22,6 +22,7 @@ type Cfg struct {
 	NoMaps    bool // no maps or sets (byte-exact comparisons)
 	NoFloat32 bool
 	Unions    bool
+	Embedding bool
 }
 
 type Gen struct {
@@ -205,7 +206,35 @@ func (g *Gen) Struct(depth int) reflect.Type {
 	if r.Chance(1, 10) { // a field without tag and an unexported one are ignored
 		fs = append(fs, reflect.StructField{Name: "Untagged", Type: reflect.TypeOf(0)})
 	}
+	if g.Cfg.Embedding && len(fs) >= 2 && r.Chance(1, 5) {
+		fs = g.embed(fs)
+	}
 	return reflect.StructOf(fs)
+}
+
+// embed moves a run of fields into an anonymous struct embedded 1-5 levels deep (by value or by
+// pointer at each level); the thrift fields of the outer struct stay the same.
+func (g *Gen) embed(fs []reflect.StructField) []reflect.StructField {
+	r := g.R
+	lo := r.Intn(len(fs) - 1)
+	hi := r.Range(lo+2, len(fs))
+	inner := append([]reflect.StructField(nil), fs[lo:hi]...)
+	levels := r.Range(1, 5)
+	t := reflect.StructOf(inner)
+	for l := 1; l < levels; l++ {
+		ft := t
+		if r.Chance(1, 3) {
+			ft = reflect.PointerTo(t)
+		}
+		t = reflect.StructOf([]reflect.StructField{{Name: fmt.Sprintf("L%d", l), Type: ft, Anonymous: true}})
+	}
+	ft := t
+	if r.Chance(1, 3) {
+		ft = reflect.PointerTo(t)
+	}
+	out := append([]reflect.StructField(nil), fs[:lo]...)
+	out = append(out, reflect.StructField{Name: "Emb", Type: ft, Anonymous: true})
+	return append(out, fs[hi:]...)
 }
 
 // Union generates a union: optional members plus the interface field that points at the one set.
@@ -538,8 +567,19 @@ func (f *Filler) fill(v reflect.Value, depth int, enum, key bool) {
 			f.fillUnion(v, fs, union, depth)
 			return
 		}
+		nilEmb := map[string]bool{}
+		for _, fi := range fs { // an embedded pointer above a required field is never left nil
+			if fi.Required {
+				for d := range fi.Index {
+					nilEmb["!"+fmt.Sprint(fi.Index[:d])] = true
+				}
+			}
+		}
 		for _, fi := range fs {
-			x := v.FieldByIndex(fi.Index)
+			x, ok := f.fieldAlloc(v, fi.Index, nilEmb)
+			if !ok {
+				continue // inside an embedded pointer left nil
+			}
 			if x.Kind() == reflect.Pointer && !fi.Required && r.Chance(1, 3) {
 				continue // nil: absent
 			}
@@ -549,6 +589,29 @@ func (f *Filler) fill(v reflect.Value, depth int, enum, key bool) {
 			f.fill(x, depth+1, fi.Enum, false)
 		}
 	}
+}
+
+// fieldAlloc walks an index path, allocating embedded pointers on the way (or, once per
+// pointer, deciding to leave it nil, which makes all fields below it absent).
+func (f *Filler) fieldAlloc(v reflect.Value, index []int, nilEmb map[string]bool) (reflect.Value, bool) {
+	for d, i := range index {
+		if v.Kind() == reflect.Pointer {
+			key := fmt.Sprint(index[:d])
+			if v.IsNil() {
+				if nilEmb[key] {
+					return reflect.Value{}, false
+				}
+				if !nilEmb["!"+key] && f.R.Chance(1, 4) {
+					nilEmb[key] = true
+					return reflect.Value{}, false
+				}
+				v.Set(reflect.New(v.Type().Elem()))
+			}
+			v = v.Elem()
+		}
+		v = v.Field(i)
+	}
+	return v, true
 }
 
 func (f *Filler) fillUnion(v reflect.Value, fs []FieldInfo, union []int, depth int) {
@@ -650,12 +713,59 @@ func eq(a, b reflect.Value, path string) (bool, string) {
 			if f.Tag.Get("thrift") == "" && !f.Anonymous {
 				continue
 			}
+			if f.Anonymous && f.Type.Kind() == reflect.Pointer {
+				// a flattened embedded pointer has no representation of its own: nil and a
+				// pointer to a struct whose fields are all absent are the same content
+				x, y := a.Field(i), b.Field(i)
+				if x.IsNil() != y.IsNil() {
+					nn := x
+					if x.IsNil() {
+						nn = y
+					}
+					if embAbsent(nn.Elem()) {
+						continue
+					}
+				}
+			}
 			if ok, d := eq(a.Field(i), b.Field(i), path+"."+f.Name); !ok {
 				return false, d
 			}
 		}
 	}
 	return true, ""
+}
+
+// embAbsent reports whether none of the thrift fields below an embedded struct value is
+// written (nil pointers, zero and not required), embedded structs followed recursively.
+func embAbsent(v reflect.Value) bool {
+	t := v.Type()
+	for i := 0; i < t.NumField(); i++ {
+		f := t.Field(i)
+		x := v.Field(i)
+		if f.Anonymous {
+			ft := f.Type
+			for ft.Kind() == reflect.Pointer {
+				ft = ft.Elem()
+			}
+			if ft.Kind() == reflect.Struct {
+				for x.Kind() == reflect.Pointer && !x.IsNil() {
+					x = x.Elem()
+				}
+				if x.Kind() == reflect.Pointer || embAbsent(x) {
+					continue
+				}
+				return false
+			}
+		}
+		tag := f.Tag.Get("thrift")
+		if tag == "" || !f.IsExported() {
+			continue
+		}
+		if strings.Contains(tag, ",required") || !x.IsZero() {
+			return false
+		}
+	}
+	return true
 }
 
 func trunc(s string) string {
